@@ -149,8 +149,23 @@ def oracle_stream(c, o, complete, what):
             return None
     return None
 
+RTR_USED_TYPES = (0, 1, 2, 3, 4, 6, 7, 8, 10)
+
 def rtr_complete(buf):
-    return len(buf) >= 8 and int.from_bytes(bytes(buf[4:8]), 'big') <= len(buf)
+    """a complete frame the decoder must decide on is at the head of the buffer; complete
+    PDUs of types the client does not use (e.g. Router Key) are consumed silently
+    (repo commit 698efb6), so they are skipped here before judging"""
+    buf = list(buf)
+    while len(buf) >= 8:
+        n = int.from_bytes(bytes(buf[4:8]), 'big')
+        if n < 8:
+            return True
+        if n > len(buf):
+            return False
+        if buf[1] in RTR_USED_TYPES:
+            return True
+        buf = buf[n:]
+    return False
 
 # ------------------------------------------------------------------ BGP
 from gen import bgpenc as E
